@@ -430,6 +430,7 @@ def nonempty_schema_arrays(repo: Repo, rep: Report, rule: str) -> None:
                 v = kw.value
                 inst = f"{fi.qualname}: {kw.arg}={ast.unparse(v)[:70]}"
                 good = (isinstance(v, ast.BoolOp) and isinstance(v.op, ast.Or) and isinstance(v.values[-1], ast.Constant) and v.values[-1].value is None) \
+                    or (isinstance(v, ast.IfExp) and isinstance(v.orelse, ast.Constant) and v.orelse.value is None and ast.unparse(v.test) == ast.unparse(v.body)) \
                     or (isinstance(v, ast.List) and v.elts and not any(isinstance(e, ast.Starred) for e in v.elts)) \
                     or (isinstance(v, ast.ListComp) and kw.arg != "prefixItems")
                 if good:
